@@ -392,7 +392,7 @@ func (b *bracket) findFlagIdiom() {
 func ruleC10ManagerTypestate(c *Ctx) {
 	const rule = "C10.manager-typestate"
 	c.floor(rule, 6, "returns of the functions in pkg/tape that lock or unlock the physical drive mutex")
-	phys := c.field("pkg/tape", "TapeManager", "physicalLock")
+	phys := c.mutex("tape.physical")
 	if phys == nil {
 		return
 	}
@@ -495,7 +495,7 @@ func mutexField(info *types.Info, call *ast.CallExpr) (*types.Var, string) {
 func ruleC10LockPairs(c *Ctx) {
 	const rule = "C10.lock-pairs"
 	c.floor(rule, 30, "Lock() calls on ioLock, diskOperationLock, readerLock, clientsLock")
-	phys := c.field("pkg/tape", "TapeManager", "physicalLock")
+	phys := c.mutex("tape.physical")
 	for _, f := range c.Funcs {
 		info := f.Pkg.TypesInfo
 		n := 0
@@ -612,8 +612,8 @@ func crashSites(c *Ctx, rule string) {
 						"goroutine feeding pipe writer "+pw.Name()+" can finish without closing it (e.g. when the producer returns success without ever opening the destination it was offered): the reading call then blocks forever while holding its lock")
 					closed := closesOnAllExits(c, cs.Target, pw)
 					c.verdictIf(closed, rule, f, construct, cs.Call.Pos(),
-						"goroutine closes the pipe writer it feeds on every error path",
-						"goroutine feeding pipe writer "+pw.Name()+" can exit on an error path without closing it: the reading side then blocks forever and the error is lost")
+						"goroutine hands the error to the reading side (CloseWithError) on every error path",
+						"goroutine feeding pipe writer "+pw.Name()+" can exit on an error path without CloseWithError: the reading side then blocks forever or sees a clean end of file, and the error is lost")
 				} else {
 					c.ok(rule, f, construct, cs.Call.Pos(), false, "goroutine does not feed a pipe")
 				}
@@ -694,9 +694,11 @@ func closesOnEveryExit(c *Ctx, l *FuncInfo, pw *types.Var) bool {
 // by the consumer of getDst (recovery.Fetch closes the destination it was given).
 func closesOnAllExits(c *Ctx, l *FuncInfo, pw *types.Var) bool {
 	info := l.Pkg.TypesInfo
+	// on an error path only CloseWithError hands the error to the reading side: a plain Close (e.g. the deferred one)
+	// ends the stream cleanly, and the reader would take a failed restore for a short file
 	isClose := func(call *ast.CallExpr) bool {
 		se, ok := ast.Unparen(call.Fun).(*ast.SelectorExpr)
-		if !ok || (se.Sel.Name != "Close" && se.Sel.Name != "CloseWithError") {
+		if !ok || se.Sel.Name != "CloseWithError" {
 			return false
 		}
 		return objOfIdent(info, se.X) == types.Object(pw)
@@ -730,6 +732,10 @@ func closesOnAllExits(c *Ctx, l *FuncInfo, pw *types.Var) bool {
 		},
 		Edge: func(b *cfg.Block, i int, s State) State {
 			for _, f := range fl.edgeFacts(b, i) {
+				if known, equal := sentinelFact(info, f, closedPipe); known && equal {
+					s &^= bad
+					continue
+				}
 				be, ok := ast.Unparen(f.E).(*ast.BinaryExpr)
 				if !ok {
 					continue
@@ -743,10 +749,8 @@ func closesOnAllExits(c *Ctx, l *FuncInfo, pw *types.Var) bool {
 						s |= bad
 					}
 				}
-				if se, ok := ast.Unparen(be.Y).(*ast.SelectorExpr); ok && closedPipe != nil && info.Uses[se.Sel] == closedPipe {
-					if be.Op == token.EQL && f.Pos || be.Op == token.NEQ && !f.Pos {
-						s &^= bad
-					}
+				if known, equal := sentinelFact(info, f, closedPipe); known && equal {
+					s &^= bad
 				}
 			}
 			return s
